@@ -543,7 +543,7 @@ pub fn cmd_fuzz(args: &Args) -> i32 {
                     entry["replay"] = json!(path);
                 }
             }
-            if violations.len() < 400 {
+            if crate::util::room(&violations, entry["kind"].as_str().unwrap_or("")) {
                 violations.push(entry);
             }
         }
@@ -1136,7 +1136,7 @@ pub fn cmd_roundtrip(args: &Args) -> i32 {
                     entry["replay"] = json!(path);
                 }
             }
-            if violations.len() < 400 {
+            if crate::util::room(&violations, entry["kind"].as_str().unwrap_or("")) {
                 violations.push(entry);
             }
         }
